@@ -1151,7 +1151,7 @@ impl NcFont {
             }
             v
         };
-        let scripts = vec![
+        let mut scripts = vec![
             ScriptModel { tag: *b"DFLT", default: Some(langsys(rng)), langs: vec![] },
             ScriptModel { tag: *b"latn", default: Some(langsys(rng)), langs: vec![(*b"TRK ", langsys(rng))] },
             ScriptModel { tag: *b"cyrl", default: Some(langsys(rng)), langs: vec![] },
@@ -1171,6 +1171,14 @@ impl NcFont {
                 }
                 fv.push(FvRecord { conditions: vec![(0, lo, hi)], substitutions: subs });
             }
+        }
+        // A LangSysRecord literally tagged 'DFLT' ('DFLT' is a script tag, not a language tag, but such
+        // records are accepted by the reader): a caller that passes Some(DFLT) as the language - as the
+        // library's own documentation examples do - must get the same answer whatever was asked before
+        // (drawn last so that the rest of the font is the one the seed produced before this was added).
+        if rng.chance(40) {
+            let f = langsys(rng);
+            scripts[1].langs.push((*b"DFLT", f));
         }
         (scripts, features, fv, variable)
     }
